@@ -231,7 +231,7 @@ impl<'a> Packet<'a> {
         for e in &self.additional_records {
             e.write_compressed_to(out, &mut name_refs)?;
         }
-        #[cfg(simple_dns_verif)]
+        #[cfg(all(simple_dns_verif, simple_dns_verif_table))]
         crate::dns::verif_hooks::record_compression_table(
             name_refs
                 .iter()
